@@ -97,9 +97,13 @@ def gen_schema(rng):
     kinds = ["req_int"] + [rng.choice([k for k in KINDS if not k.startswith("req_")]) for _ in range(n - 1)]
     if rng.random() < 0.4:
         kinds.insert(1, rng.choice(["req_date", "req_opt"]))
+    # kinds with their own default-comparison / rendering rules appear in every other schema at least
+    for must in ("enum", "nan", "dec", "uuid"):
+        if must not in kinds and rng.random() < 0.5:
+            kinds.append(must)
     # required fields first (dataclass rule)
     kinds.sort(key=lambda k: 0 if k.startswith("req_") else 1)
-    names = rng.sample(NAMES, len(kinds))
+    names = rng.sample(NAMES + ['e', 'f', 'g', 'h'], len(kinds))
     fields = []
     for name, kind in zip(names, kinds):
         alias_src = rng.choice([None, None, "meta", "ann", "cfg"])
